@@ -384,4 +384,59 @@ def map_comprehension(eng, node, g, view, fr, kind):
 
 
 def dict_comprehension(eng, node, fr):
-    raise EngineLimit("dict comprehension (line %s): give the enclosing function a contract-level model" % node.lineno)
+    """{k: v for k, v in d.items() if c(k, v)}  - a FILTERED COPY of a heap dict d, with a pure filter c.
+
+    Result: a fresh dict object m (a new reference, so the assignment of m to an attribute is a write of that attribute) with
+      dom(m)  = lambda key: dom(d)(key) and c(key, d[key])        (exact, no quantifier)
+      val(m)  = val(d)                                            (values are only meaningful inside dom)
+      keys(m) = some list of length 0 <= n' <= len(d); its well-formedness against dom(m) is assumed on demand (assume_wf_once);
+                its ORDER is left unconstrained (python: the order of d restricted to the kept keys) - sound, an iteration
+                over m is then verified for every order.
+    Every other shape of dict comprehension stays out of reach (EngineLimit -> UNDECIDED)."""
+    E = _E()
+    lim = "dict comprehension (line %s): give the enclosing function a contract-level model" % node.lineno
+    if len(node.generators) != 1:
+        raise EngineLimit(lim)
+    g = node.generators[0]
+    import ast as _ast
+
+    tgt = g.target
+    if not (isinstance(tgt, _ast.Tuple) and len(tgt.elts) == 2 and all(isinstance(e, _ast.Name) for e in tgt.elts)
+            and isinstance(node.key, _ast.Name) and isinstance(node.value, _ast.Name)
+            and node.key.id == tgt.elts[0].id and node.value.id == tgt.elts[1].id and tgt.elts[0].id != tgt.elts[1].id):
+        raise EngineLimit(lim)
+    it = eng.eval(g.iter, fr)
+    if not (isinstance(it, PyVal) and it.kind == "mapview" and it.what == "items" and isinstance(it.of, SV) and isinstance(it.of.sort, MapOf)):
+        raise EngineLimit(lim)
+    src = it.of
+    ms = src.sort
+    ks = ksorts(ms)
+    d = dom_arr(eng, src)
+    vals = val_arrs(eng, src)
+    n_src = eng.list_len(keys_ref(eng, src).t, ms.key)  # no well-formedness assumption here: quantified hypotheses cost counter-models
+    kq = [bvar("dck", s_) for s_ in ks]
+    kval = unflatten(ms.key, kq)
+    fr2 = E.Frame(fr.module, fr.cls, fr.func, dict(fr.locals))
+    saved_mode = eng.spec_mode
+    nalloc0 = eng.path.nalloc
+    eng.spec_mode = True  # the filter must be pure (no forking, no allocation)
+    eng.bound_depth += 1
+    try:
+        vval = map_value(eng, src, kq)
+        eng.assign(tgt.elts[0], kval, fr2, node.lineno)
+        eng.assign(tgt.elts[1], vval, fr2, node.lineno)
+        cond = bm.and_(*[eng.truth(eng.eval(c, fr2)) for c in g.ifs])
+    finally:
+        eng.spec_mode = saved_mode
+        eng.bound_depth -= 1
+    if eng.path.nalloc != nalloc0:
+        raise EngineLimit(lim)
+    mv = SV(ms, eng.new_ref())
+    map_havoc(eng, mv, "dcomp")
+    _set(eng, mv, "dom", 0, z3.Lambda(kq, z3.And(z3.Select(d, *kq), zb(cond))))
+    for i_, va in enumerate(vals):
+        _set(eng, mv, "val", i_, va)
+    n_new = eng.list_len(keys_ref(eng, mv).t, ms.key)
+    eng.path.assume(z3.And(n_new >= 0, n_new <= n_src), check=False)
+    eng.path.notes.append("dict-comprehension (filtered copy) at line %s" % node.lineno)
+    return mv
